@@ -4,13 +4,23 @@
     directory, every leaf directory visited.  The tile-data section is never among them unless a
     pointer entry declares a window into it — which the archive's own (non-overlapping) layout rules out.
     A lookup fetches exactly [offset, offset + length).
+    [C20_open_needs_only_its_windows]: the opening procedure over the I/O interface ([IOReader.open_io], which on an
+    ideal stream is exactly what [from_reader] computes — [C15_reader_is_the_model]) gives the same result when every
+    request OUTSIDE those windows fails: the open cannot have read a byte elsewhere, in particular none of the
+    tile-data section.
 
     Partial: the model exposes WHICH windows are requested; that the Rust readers (and the codec
     adapters' read-ahead under take) stay inside them is decided by the recording-reader oracle: read
     ranges of from_reader(_partially) / get_tile_by_id, sync and async, on library-written and foreign
     layouts (gaps, permuted sections, 4 codecs, leaf trees, tiles above 64 KiB). *)
-Require Import PM.Base PM.Oracles PM.Params PM.Header PM.Directory PM.Stream PM.IO PM.IOProofs PM.DirReader PM.Archive PM.ReadWindows.
+Require Import PM.Base PM.Oracles PM.Params PM.Header PM.Directory PM.Stream PM.IO PM.IOProofs PM.DirReader PM.Archive PM.ReadWindows PM.IOReader PM.IOReaderProofs.
 Open Scope N_scope.
+
+(** the open depends on nothing outside the windows it requests *)
+Theorem C20_open_needs_only_its_windows : forall cx bad img r ws,
+  open_windows cx img r = Ok ws -> (forall w, In w ws -> bad (fst w) (snd w) = false) ->
+  open_io cx (fail_on bad (img_fetch img)) r = open_io cx (img_fetch img) r.
+Proof. intros cx bad img r ws. exact (open_io_only_windows cx bad img r ws eq_refl). Qed.
 
 (** every directory window requested is the root window or one that a pointer entry (run length 0) of a
     directory already read declares: leaf_directories_offset + entry offset, entry length *)
